@@ -42,7 +42,7 @@ var segAlphabet = []string{"a", "b", "ab", "*", "?", "a*", "*b", "**", "?b"}
 var nameAlphabet = []string{"a", "b", "ab", "ba", "bb"}
 
 func randPattern(rng *rand.Rand) string {
-	n := 1 + rng.Intn(3)
+	n := 1 + rng.Intn(4)
 	var p []string
 	for i := 0; i < n; i++ {
 		p = append(p, segAlphabet[rng.Intn(len(segAlphabet))])
@@ -209,6 +209,13 @@ func Check(env *core.Env, rep *core.Report) *core.Result {
 			_ = ioutil.WriteFile(filepath.Join(root, "b", "a"), []byte("x"), 0o644)
 			paths = []string{"a", "b", "b/a"}
 			inc = []string{"**/**/a"}
+		} else if i == 1 {
+			// the same with three adjacent doublestars
+			_ = os.MkdirAll(filepath.Join(root, "b"), 0o755)
+			_ = ioutil.WriteFile(filepath.Join(root, "a"), []byte("x"), 0o644)
+			_ = ioutil.WriteFile(filepath.Join(root, "b", "a"), []byte("x"), 0o644)
+			paths = []string{"a", "b", "b/a"}
+			inc = []string{"**/**/**/a"}
 		} else {
 			paths = randTree(r, root)
 			for k := 0; k < 1+r.Intn(2); k++ {
@@ -310,7 +317,9 @@ func Check(env *core.Env, rep *core.Report) *core.Result {
 		_ = os.MkdirAll(filepath.Join(root, "d"), 0o755)
 		_ = ioutil.WriteFile(filepath.Join(root, "d", "in.txt"), []byte("x"), 0o644)
 		var listed []string
-		if r.Intn(4) != 0 {
+		if i == 0 {
+			listed = []string{"write"}
+		} else if r.Intn(4) != 0 {
 			for _, t := range allTypes {
 				if r.Intn(2) == 0 {
 					listed = append(listed, t)
@@ -321,7 +330,7 @@ func Check(env *core.Env, rep *core.Report) *core.Result {
 		var y strings.Builder
 		// in half of the scenarios the task outlasts the loop's one-second pause, so that a later
 		// event is taken while the run for an earlier one is still in progress
-		slow := i%2 == 1
+		slow := i%2 == 1 && i != 0
 		pre := ""
 		if slow {
 			pre = "sleep 1.7; "
@@ -348,12 +357,20 @@ func Check(env *core.Env, rep *core.Report) *core.Result {
 		touchedSel, touchedOther := map[string]bool{}, map[string]bool{}
 		var ops []string
 		nops := 2 + r.Intn(5)
+		// scenario 0: a long run of events that are not subscribed, then a subscribed one
+		fixed := [][2]string{{"write", "f1.txt"}, {"chmod", "f1.txt"}, {"chmod", "f2.txt"}, {"chmod", "f1.txt"}, {"chmod", "f2.txt"}, {"chmod", "f3.txt"}, {"write", "f1.txt"}}
+		if i == 0 {
+			nops = len(fixed)
+		}
 		for k := 0; k < nops; k++ {
 			f := []string{"f1.txt", "f2.txt", "f3.txt", "ex.txt", "other.dat", "d/in.txt"}[r.Intn(6)]
+			op := []string{"write", "write", "chmod", "remove", "rename"}[r.Intn(5)]
+			if i == 0 {
+				op, f = fixed[k][0], fixed[k][1]
+			}
 			if gone[f] {
 				continue
 			}
-			op := []string{"write", "write", "chmod", "remove", "rename"}[r.Intn(5)]
 			full := filepath.Join(root, f)
 			switch op {
 			case "write":
